@@ -205,6 +205,10 @@ class Parser:
         self._op_code.
         """
         if action_token is TokenTypes.STAGE:
+            if self._current_token.is_a(TokenTypes.BEGIN):
+                # "stage" takes rows and columns; only "set" opens a block.
+                return self.trigger_error(
+                    'Use of "begin" not allowed after "stage".')
             if not MatrixParser(self).operand_list():
                 return False
             self._add_instruction(OpCode.COLOR)
